@@ -6,6 +6,7 @@ import FitModel.Raw
 import Driver.Util
 import Driver.ValCodec
 import Driver.DecApiShow
+import Driver.DecApiStd
 import Driver.Raw
 -- @family decapi Drv.DecApi.hDecApi
 -- @family dechist Drv.DecApi.hDecHist
@@ -30,6 +31,9 @@ structure Line where
   o : Opts
   ops : List Op
   streams : List (List Nat)
+  /-- `f:std` with `exp1`: the decoder's default configuration — answered by the composition of (C) with expansion off
+  and C05's expansion model over the real profile (Driver/DecApiStd.lean) -/
+  dflt : Bool := false
 
 def parseBit (s pre : String) : Option Bool :=
   match stripPrefix? s pre with
@@ -137,7 +141,7 @@ def parseLine (args : List String) : Option Line := do
   let o ← parseOpts (← optS) fac
   let streams := (← b) :: rs.toList
   let ops ← ((← opsS).splitOn ",").mapM (parseOp o streams)
-  pure ⟨verbose, o, resolveOps (Api.fresh o (streams.headD [])) ops, streams⟩
+  pure ⟨verbose, o, resolveOps (Api.fresh o (streams.headD [])) ops, streams, (← facS) == "std" && o.exp⟩
 
 /-- tokens up to and including the first panic / hang -/
 def cut : List (Op × Out × List Event) → List (Op × Out × List Event)
@@ -146,7 +150,20 @@ def cut : List (Op × Out × List Event) → List (Op × Out × List Event)
     | .panic | .hang => [x]
     | _ => x :: cut xs
 
+/-- default configuration: (C) with the standard factory and expansion off, then C05's expansion of every message -/
+def answerDflt (l : Line) : String :=
+  let o' := Drv.DecApiStd.inner l.o
+  let ops' := l.ops.map (Drv.DecApiStd.innerOp l.o)
+  let res := run (Api.fresh o' (l.streams.headD [])) ops'
+  " ".intercalate (Drv.DecApiStd.walk l.verbose l.o {} (ops'.zip (res.map some)))
+
+def specToksDflt (l : Line) : List String :=
+  let o' := Drv.DecApiStd.inner l.o
+  let ops' := l.ops.map (Drv.DecApiStd.innerOp l.o)
+  Drv.DecApiStd.walk l.verbose l.o {} (ops'.zip (specRun (Spec.fresh o' (l.streams.headD [])) ops'))
+
 def answer (l : Line) : String :=
+  if l.dflt then answerDflt l else
   let res := run (Api.fresh l.o (l.streams.headD [])) l.ops
   " ".intercalate ((cut (l.ops.zip res)).map fun (op, r) => showTok l.verbose op r)
 
@@ -203,6 +220,10 @@ def propC03 (l : Line) (impl : String) : String :=
 def propC07 (l : Line) (impl : String) : String :=
   let toks := impl.splitOn " "
   if toks.length != l.ops.length then "fail:answer-count"
+  else if l.dflt then
+    match ((specToksDflt l).zip toks).zipIdx.find? (fun ((sp, t), _) => sp != "*" && sp != t) with
+    | some ((sp, _), i) => s!"fail:op{i}:demanded=" ++ sp
+    | none => "ok"
   else
     let spec := specRun (Spec.fresh l.o (l.streams.headD [])) l.ops
     match ((l.ops.zip spec).zip toks).zipIdx.find? (fun (((op, sp), t), _) =>
@@ -214,6 +235,7 @@ def propC07 (l : Line) (impl : String) : String :=
     | none => "ok"
 
 def specAnswer (l : Line) : String :=
+  if l.dflt then " ".intercalate (specToksDflt l) else
   " ".intercalate (((l.ops.zip (specRun (Spec.fresh l.o (l.streams.headD [])) l.ops))).map fun (op, sp) =>
     match sp with | some r => showTok l.verbose op r | none => "*")
 
